@@ -107,7 +107,26 @@ pub fn on_end(o: &mut Observer, end_us: u64) {
             if at_heal > mine_at_heal {
                 o.probe("C07.lagger-was-behind");
             }
-            if mine < target {
+            // With a crashed peer every backward step through one of its blocks costs a retry
+            // period; the deadline pays for `slow_steps` of them per crashed peer (equal
+            // stakes: a peer leads every n-th round). Larger gaps are not judged.
+            // Only blocks the peer authored before it crashed count: the chain between the
+            // lagger's tip at the heal and the others' tip at the crash.
+            let mut steps_needed = 0u64;
+            for j in 0..o.n {
+                if j == l {
+                    continue;
+                }
+                if let Some(tc) = o.ext.crashed[j] {
+                    let tip_then = others.iter().map(|k| tip_at(o, *k, tc)).max().unwrap_or(0);
+                    steps_needed += tip_then.saturating_sub(mine_at_heal) / o.n as u64 + 2;
+                }
+            }
+            let beyond = steps_needed > b.slow_steps;
+            if beyond && mine < target {
+                o.probe("C07.catch-up-bound-beyond-run");
+            }
+            if mine < target && !beyond {
                 // A peer that never answers makes every backward step through one of its blocks
                 // cost a full retry period (5 s granularity), slower than blocks are produced.
                 let rule = if matches!(b.deaf, Some((_, _, t1)) if t1 == u64::MAX) { "lagger-did-not-catch-up.peer-deaf-for-ever" } else { "lagger-did-not-catch-up" };
